@@ -314,6 +314,9 @@ func (d *ids) match(rv luaref.Value, gv lua.LValue) error {
 			return fmt.Errorf("reference: a line in %d..%d, gopher-lua %s", x.Lo, x.Hi, ShowG(gv))
 		}
 	case *luaref.OStr:
+		if x.Kind == "any" {
+			return nil // a value no property fixes (e.g. what xpcall returns when its handler fails too)
+		}
 		s, ok := gv.(lua.LString)
 		if !ok {
 			return mism()
